@@ -297,6 +297,104 @@ def check_snapshot(model, rep):
     rep.require('C18.interp', 11)
 
 
+def check_export_columns(model, rep, mod, fn, unit_map):
+    """the column statements of the export utility evaluated abstractly: for every recorded variable the column
+    label is `<variable> (<its own unit parameter>)` and every cell is that sample's SI magnitude divided by the
+    factor of that same unit (each sample converted on its own: samples of one list may carry different units)"""
+    from sa import sx as sxm
+    from sa.algebra import Rat
+    from sa.spec.variables import VARIABLE_KINDS
+    from sa.sx import SX, Sv, Uv, U, Ov, Seq, Unk, Mv, N, CannotDecide
+    loc = f'{mod}:{fn.lineno}'
+    sx = SX(model)
+    sx.eval_comprehensions = True
+    sx.variable_kinds = VARIABLE_KINDS
+    sxm.POSITIVE_ATOMS.clear()
+    env = {}
+    for a in fn.args.args + fn.args.kwonlyargs:
+        if a.arg.endswith('_unit'):
+            env[a.arg] = Uv(U(sym=a.arg))
+    env['rotating_object'] = Ov('obj', 'RotatingObject', False)
+    env['time_array'] = Seq('time_array', ('q', 'Time'))
+    frame = {'module': mod, 'cls': None, 'fn': fn, 'depth': 0}
+    body = strip_docstring(fn.body)
+    loop = next((n for n in body if isinstance(n, ast.For) and 'time_variables' in ast.unparse(n.iter)
+                 and isinstance(n.target, ast.Name)), None)
+    frames = [n for n in body if isinstance(n, ast.Assign) and isinstance(n.value, ast.Call)
+              and ast.unparse(n.value.func).endswith('DataFrame')]
+    if loop is None or len(frames) != 1 or not isinstance(frames[0].targets[0], ast.Name):
+        rep.cannot('C18.export', 'export_time_variables:columns', 'the per-variable column loop / the data frame was not recognised', loc)
+        return
+    table = frames[0].targets[0].id
+    env[table] = Unk(table)
+    try:
+        st = sxm.State(env=dict(env))
+        outs = sx.block([unit_map], [st], frame)
+        st = outs[0].state
+        # the time column: statements between the frame creation and the loop
+        pre = [n for n in body[body.index(frames[0]) + 1: body.index(loop)]]
+        outs = [o for o in sx.block(pre, [st], frame) if o.kind == 'fall']
+        if len(outs) != 1:
+            raise CannotDecide(f'{len(outs)} paths before the column loop')
+        st = outs[0].state
+        tcols = [e for e in st.effects if e[0] == 'setitem' and e[1] == table]
+        okt, why = False, 'no time column is written'
+        for e in tcols:
+            okt, why = _column_ok(sx, e, 'time (<time_unit>)', 'time_array', 'Time', 'time_unit')
+        rep.decide(okt and len(tcols) == 1, 'C18.export', 'export_time_variables:time',
+                   why or f'{len(tcols)} columns before the variable loop', loc=loc)
+        for var, param in UNIT_PARAM.items():
+            s2 = st.copy()
+            s2.env[loop.target.id] = Sv(var)
+            base = len(s2.effects)
+            done = [o for o in sx.block(loop.body, [s2], frame) if o.kind in ('fall', 'continue')]
+            cons = f'export_time_variables:column[{var}]'
+            if not done:
+                rep.violation('C18.export', cons, 'no completing path of the column loop for this variable', loc)
+                continue
+            ok, why, line = True, '', loop.lineno
+            for o in done:
+                cols = [e for e in o.state.effects[base:] if e[0] == 'setitem' and e[1] == table]
+                if len(cols) != 1:
+                    ok, why = False, f'{len(cols)} columns written for this variable'
+                    break
+                e = cols[0]
+                line = e[4]
+                if param is None:
+                    ok = e[2] == repr(var) and sx.show(e[3]).endswith(f'time_variables[{var!r}]')
+                    why = '' if ok else f'the unit-less variable is exported as column {e[2]} = `{sx.show(e[3])[:60]}`'
+                else:
+                    ok, why = _column_ok(sx, e, f'{var} (<{param}>)', f'time_variables[{var!r}]', VARIABLE_KINDS[var], param)
+                if not ok:
+                    break
+            rep.decide(ok, 'C18.export', cons, why, loc=f'{mod}:{line}', detail=f'{len(done)} path(s)')
+    except CannotDecide as e:
+        rep.cannot('C18.export', 'export_time_variables:columns', str(e), loc)
+
+
+def _column_ok(sx, e, label, src_suffix, kind, param):
+    from sa.algebra import Rat
+    from sa.sx import Mv, N, Dyn, U
+    _, _, key, val, ln = e[:5]
+    if key != repr(label):
+        return False, f'the column is labelled {key}, specified {label!r} (label unit = the unit the cells are converted to)'
+    if not isinstance(val, Mv):
+        return False, f'the column is `{sx.show(val)[:80]}`, not one converted value per recorded sample'
+    if not val.src.endswith(src_suffix):
+        return False, f'the cells are computed from `{val.src}`, not from {src_suffix}'
+    if val.filtered or len(val.cases) != 1 or val.cases[0][0]:
+        return False, 'samples are filtered or treated case by case: the column can lose its alignment with the time column'
+    cell = val.cases[0][1]
+    if not isinstance(cell, (N, Dyn)):
+        return False, f'the cell is `{sx.show(cell)[:80]}`, not a bare number'
+    each = f'each({val.src})'
+    want = Rat.atom(each) / sx.ufactor(kind, U(sym=param))
+    if not sx.ctx.eq(cell.term, want):
+        return False, (f'a cell is `{sx.ctx.show(sx.ctx.reduce(cell.term))[:120]}`; specified: the sample\'s own SI magnitude over the factor of '
+                       f'{param} (`{sx.ctx.show(want)}`) - every sample converted on its own, whatever unit it carries')
+    return True, ''
+
+
 def check_export(model, rep):
     if 'export_time_variables' in model.functions:
         mod, fn = model.functions['export_time_variables']
@@ -316,28 +414,8 @@ def check_export(model, rep):
                     if (want is None and got not in ('', None)) or (want is not None and got != want):
                         bad.append((k.value, got))
             rep.decide(not bad, 'C18.export', 'export_time_variables:UNIT', f'unit mapping pairs {bad} wrongly', loc=f'{mod}:{unit_map.lineno}')
-            name = unit_map.targets[0].id if isinstance(unit_map.targets[0], ast.Name) else None
-            # column loop: unit = UNIT[variable]; label f'{variable} ({unit})'; values .to(unit).value of time_variables[variable]
-            ok, why = False, 'the per-variable column loop was not recognised'
-            for n in ast.walk(fn):
-                if isinstance(n, ast.For) and 'time_variables' in ast.unparse(n.iter) and isinstance(n.target, ast.Name):
-                    var = n.target.id
-                    src = ast.unparse(n)
-                    uvar = None
-                    for s in n.body:
-                        if isinstance(s, ast.Assign) and isinstance(s.value, ast.Subscript) and isinstance(s.value.value, ast.Name) \
-                                and s.value.value.id == name and ast.unparse(s.value.slice) == var:
-                            uvar = s.targets[0].id
-                    if uvar is None:
-                        why = 'the column unit is not taken from the mapping entry of the same variable'
-                        continue
-                    ok = (f"data[f'{{{var}}} ({{{uvar}}})']" in src and f'.to({uvar}).value' in src and
-                          f'time_variables[{var}]' in src)
-                    why = '' if ok else 'column label, conversion unit and data source do not refer to the same variable/unit'
-            rep.decide(ok, 'C18.export', 'export_time_variables:columns', why, loc=loc)
+            check_export_columns(model, rep, mod, fn, unit_map)
             src = ast.unparse(fn)
-            okt = "data[f'time ({time_unit})']" in src and '.to(time_unit).value' in src
-            rep.decide(okt, 'C18.export', 'export_time_variables:time', 'the time column is not the recorded instants converted to time_unit', loc=loc)
             rep.decide('index=False' in src, 'C18.export', 'export_time_variables:index', 'the CSV is not written with index=False', loc=loc)
     else:
         rep.cannot('C18.export', 'export_time_variables', 'function not found')
